@@ -1,39 +1,1 @@
 //! scratch experiments (not part of any property)
-use crate::c22::*;
-use crate::cborwf::walk;
-use pallas_codec::minicbor::Decoder;
-
-#[kani::proof]
-#[kani::unwind(10)]
-#[kani::stub(std::fmt::format, crate::stubs::fmt_format_stub)]
-fn probe_ka_enc_only() {
-    let msg = ka::Message::KeepAlive(kani::any());
-    let mut buf = [0u8; 8];
-    let (ok, len) = encode_into(&msg, &mut buf[..]);
-    assert!(ok && len >= 2 && len <= 4);
-}
-#[kani::proof]
-#[kani::unwind(10)]
-#[kani::stub(std::fmt::format, crate::stubs::fmt_format_stub)]
-fn probe_ka_enc_walk() {
-    let msg = ka::Message::KeepAlive(kani::any());
-    let mut buf = [0u8; 8];
-    let (ok, len) = encode_into(&msg, &mut buf[..]);
-    let w = walk(&buf, len, 4);
-    assert!(w == Some(len));
-}
-#[kani::proof]
-#[kani::unwind(10)]
-#[kani::stub(std::fmt::format, crate::stubs::fmt_format_stub)]
-fn probe_ka_enc_dec() {
-    let msg = ka::Message::KeepAlive(kani::any());
-    let mut buf = [0u8; 8];
-    let (ok, len) = encode_into(&msg, &mut buf[..]);
-    let mut d = Decoder::new(&buf[..len]);
-    let back: Result<ka::Message, _> = d.decode();
-    match &back {
-        Ok(m2) => assert!(ka::eq(&msg, m2)),
-        Err(_) => assert!(false),
-    }
-    core::mem::forget(back);
-}
